@@ -30,7 +30,7 @@ func init() {
 		level: lvlExploration,
 		rule: "times/div: every one of the 2^32 operand pairs (case = block of 1024 constants x all 65536 values) compared with a shift-and-xor reference; inverse: all 65535 elements; pow: all 65536 bases x a fixed exponent list (quick) plus the full chain a^(p+1)=a^p*a for p<=65536 (thorough); Poly64: all single-bit pairs, boundary degrees and seeded random pairs. A key is one (operation, operand block); blocks are disjoint, so distinct_nontrivial counts distinct blocks and monitor_counters.pairs_* count the operand pairs actually compared",
 		assumptions: append([]string{"reference field arithmetic: internal/ref/gf16 (carry-less shift-and-xor product reduced by 0x1100B, extended Euclid inverse, square-and-multiply power)"}, commonAssumptions...),
-		opts:        core.WorkerOpts{CrashIsViolation: true, WallSeconds: 1200, Exhaustive: true, Extra: map[string]interface{}{"exhaustive_subspace": "all 2^32 pairs for Times and Div, all 65535 inverses"}},
+		opts:        core.WorkerOpts{CrashIsViolation: true, WallSeconds: 3000, CPUSeconds: 240, CPULimitIsViolation: true, Exhaustive: true, Extra: map[string]interface{}{"exhaustive_subspace": "all 2^32 pairs for Times and Div, all 65535 inverses"}},
 	}})
 }
 
@@ -110,7 +110,25 @@ func clmul128(p, q uint64) (hi, lo uint64) {
 
 func deg64(p uint64) int { return 63 - bits.LeadingZeros64(p) }
 
+var c08PolyN int
+var c08Skip bool
+
 func (c *c08) checkPoly(r *core.R, p, q uint64) {
+	c08PolyN++
+	if c08PolyN%64 == 1 {
+		// one sub-case per 64 pairs: a hang or crash is attributed and skipped
+		if !core.Sub(c08PolyN / 64) {
+			c08Skip = true
+		} else {
+			c08Skip = false
+		}
+	}
+	if c08Skip {
+		return
+	}
+	if c08PolyN%64 == 1 || q>>32 == 1 || p>>32 == 1 {
+		core.Note("C08 Poly64 p=%#x q=%#x (Times, Div)", p, q)
+	}
 	got := uint64(gf2.Poly64(p).Times(gf2.Poly64(q)))
 	if want := clmul64lo(p, q); got != want {
 		r.Violate("poly64-times", "Poly64(%#x).Times(%#x) = %#x, reference %#x", p, q, got, want)
@@ -136,6 +154,7 @@ func (c *c08) checkPoly(r *core.R, p, q uint64) {
 func (c *c08) Run(cs core.Case) core.Result {
 	var p c08Params
 	core.Decode(cs, &p)
+	c08PolyN, c08Skip = 0, false
 	r := core.NewR(cs)
 	r.Key("%s", cs.Name)
 	switch p.Op {
